@@ -399,9 +399,27 @@ func muxLockstepCase(c *mon.Ctx, idx int64, r *rand.Rand) {
 	c.Case(mon.HashStr("mux-lockstep", fmt.Sprint(idx)), true)
 }
 
+// withNullPackets inserts null packets (PID 0x1FFF) whose payload is not stuffing but arbitrary bytes — the standard says nothing
+// about what they hold — between the packets of a stream.
+func withNullPackets(r *rand.Rand, in []byte) []byte {
+	var out []byte
+	for o := 0; o+188 <= len(in); o += 188 {
+		if r.IntN(4) == 0 {
+			out = append(out, 0x47, 0x1f, 0xff, 0x10|byte(r.IntN(16)))
+			out = append(out, gen.Bytes(r, 184)...)
+		}
+		out = append(out, in[o:o+188]...)
+	}
+	return out
+}
+
 func aliasCase(c *mon.Ctx, idx int64, r *rand.Rand, s1, s2 *gen.Stream, api string) {
 	in1 := append([]byte{}, s1.Bytes...)
 	in2 := append([]byte{}, s2.Bytes...)
+	if api == "packet" && idx%2 == 1 {
+		in1, in2 = withNullPackets(r, in1), withNullPackets(r, in2)
+		c.Count("packet_runs_with_null_packets_carrying_data")
+	}
 	cfg := DemuxCfg{PacketSize: 188, Reader: []string{"seek", "bufio", "plain"}[r.IntN(3)], API: api}
 	if api == "data" && idx%3 == 1 {
 		// an application parser that keeps what it is handed: its data refer to the packets of the unit (first packet, payload
